@@ -302,7 +302,7 @@ func newSysVM(cfg *sysConfig, w *world) *sysVM {
 // decodes the gas schedule twice), a search replays hundreds of thousands of histories, so
 // an instance is built once and re-pointed at a fresh copy of the genesis world. That is a
 // completely fresh instance: the contracts keep no state of their own besides their
-// constructor configuration and the feature flags, which reset() re-derives from epoch 0,
+// constructor configuration and the feature flags, which get() re-derives from the world's epoch,
 // and the eei cache, which every top-level call cleans first.
 type vmPool struct {
 	cfg  *sysConfig
